@@ -221,4 +221,381 @@ theorem step_once {E : Env} {t : TraitCore} (tot : TotalDefault E t) (s : OSt) (
     simp only []
     split <;> exact (h0.trans (calm_it _ _)).toOnce
 
+/-! ### The world -/
+
+/-- Number of default-factory invocations made for object `oid`, attribute `n`. -/
+def World.fcount (w : World) (oid : Id) (n : Name) : Nat :=
+  (w.ctx.fcalls.filter (fun f => f.2.1 == oid && f.2.2 == n)).length
+
+structure OnceInv (E : Env) (w : World) : Prop where
+  lt : ∀ (i : Nat) (o : Inst), w.insts[i]? = some o → o.oid < w.ctx.alloc
+  distinct : ∀ (a b : Nat) (oa ob : Inst), w.insts[a]? = some oa → w.insts[b]? = some ob → oa.oid = ob.oid → a = b
+  once : ∀ (i : Nat) (o : Inst), w.insts[i]? = some o → ∀ n,
+    w.fcount o.oid n ≤ 1 ∧ (w.fcount o.oid n = 1 → (assocGet o.dict n).isSome = true)
+  foreign : ∀ f ∈ w.ctx.fcalls, ∃ (i : Nat) (o : Inst), w.insts[i]? = some o ∧ f.2.1 = o.oid
+  total : ∀ t, w.Cores t → TotalDefault E t
+
+theorem filter_all_of {α : Type} (p : α → Bool) (l : List α) (h : ∀ x ∈ l, p x = true) : l.filter p = l :=
+  List.filter_eq_self.mpr h
+
+theorem filter_none_of {α : Type} (p : α → Bool) (l : List α) (h : ∀ x ∈ l, p x = false) : l.filter p = [] :=
+  List.filter_eq_nil_iff.mpr (fun x hx => by simp [h x hx])
+
+/-- A focused statement satisfying `Once` keeps the invariant. -/
+theorem onAttr_once {E : Env} {w : World} (g : OnceInv E w) (i : Nat) (n : Name)
+    (f : TraitCore → OSt → Res × OSt)
+    (hf : ∀ t s, TotalDefault E t → Once s (f t s).2 ∧ SFrame s (f t s).2) :
+    OnceInv E (w.onAttr i n f).2 := by
+  unfold World.onAttr
+  cases hi : w.insts[i]? with
+  | none => exact g
+  | some o =>
+    simp only []
+    cases ht : w.traitOf o n with
+    | none => exact g
+    | some td =>
+      simp only []
+      have hcore := w.traitOf_cores i o n td hi ht
+      obtain ⟨ho, hsf⟩ := hf td.core (w.focus o n) (g.total td.core hcore)
+      cases hr : f td.core (w.focus o n) with
+      | mk r s =>
+        rw [hr] at ho hsf
+        simp only []
+        obtain ⟨l, hl, hm, hlen, hsome, hne⟩ := ho.ex
+        have hself : (w.focus o n).self = o.oid := rfl
+        have hname : (w.focus o n).name = n := rfl
+        have hfc : (w.focus o n).ctx.fcalls = w.ctx.fcalls := rfl
+        have hslot0 : (w.focus o n).slot = assocGet o.dict n := rfl
+        rw [hself, hname] at hm
+        have hget : ∀ (j : Nat) (oj : Inst), (w.setInst i (o.absorb n td.core s) s.ctx).insts[j]? = some oj →
+            (j = i ∧ oj = o.absorb n td.core s) ∨ (j ≠ i ∧ w.insts[j]? = some oj) := by
+          intro j oj hj
+          by_cases hji : j = i
+          · subst hji
+            rw [setInst_get_self w j o _ _ hi] at hj
+            injection hj with hj
+            exact Or.inl ⟨rfl, hj.symm⟩
+          · rw [setInst_get_other w i j _ _ hji] at hj
+            exact Or.inr ⟨hji, hj⟩
+        have hoid : (o.absorb n td.core s).oid = o.oid := rfl
+        have hdict : ∀ m, assocGet (o.absorb n td.core s).dict m = if m = n then s.slot else assocGet o.dict m := by
+          intro m
+          unfold Inst.absorb
+          simp only []
+          by_cases hmn : m = n
+          · subst hmn
+            cases hs : s.slot with
+            | none => simp [assocGet_assocErase]
+            | some v => simp [assocGet_assocSet_self]
+          · cases hs : s.slot with
+            | none => simp [assocGet_assocErase, hmn]
+            | some v => simp [assocGet_assocSet_ne _ _ _ _ hmn, hmn]
+        -- counts
+        have hcount : ∀ oid m, World.fcount (w.setInst i (o.absorb n td.core s) s.ctx) oid m =
+            w.fcount oid m + (if oid = o.oid ∧ m = n then l.length else 0) := by
+          intro oid m
+          unfold World.fcount
+          show (List.filter _ s.ctx.fcalls).length = _
+          rw [show s.ctx.fcalls = w.ctx.fcalls ++ l from hl, List.filter_append, List.length_append]
+          congr 1
+          by_cases hc : oid = o.oid ∧ m = n
+          · obtain ⟨rfl, rfl⟩ := hc
+            simp only [and_self, if_true]
+            rw [filter_all_of _ l (fun x hx => by rw [hm x hx]; simp)]
+          · simp only [hc, if_false]
+            rw [filter_none_of _ l (fun x hx => by
+              rw [hm x hx]
+              simp only [Bool.and_eq_false_iff, beq_eq_false_iff_ne, ne_eq]
+              by_cases h1 : o.oid = oid
+              · right; intro h2; exact hc ⟨h1.symm, h2.symm⟩
+              · left; exact h1)]
+            rfl
+        refine ⟨?_, ?_, ?_, ?_, ?_⟩
+        · intro j oj hj
+          have hle : w.ctx.alloc ≤ s.ctx.alloc := hsf.le
+          rcases hget j oj hj with ⟨-, rfl⟩ | ⟨-, h⟩
+          · exact Nat.lt_of_lt_of_le (g.lt i o hi) hle
+          · exact Nat.lt_of_lt_of_le (g.lt j oj h) hle
+        · intro a b oa ob ha hb hab
+          rcases hget a oa ha with ⟨rfl, rfl⟩ | ⟨hai, ha'⟩
+          · rcases hget b ob hb with ⟨rfl, rfl⟩ | ⟨hbi, hb'⟩
+            · rfl
+            · exact g.distinct a b o ob hi hb' hab
+          · rcases hget b ob hb with ⟨rfl, rfl⟩ | ⟨hbi, hb'⟩
+            · exact g.distinct a b oa o ha' hi hab
+            · exact g.distinct a b oa ob ha' hb' hab
+        · intro j oj hj m
+          rw [hcount]
+          rcases hget j oj hj with ⟨rfl, rfl⟩ | ⟨hji, hj'⟩
+          · rw [hoid, hdict]
+            by_cases hmn : m = n
+            · subst hmn
+              simp only [and_self, if_true]
+              have hold := g.once j o hi m
+              cases hs0 : (assocGet o.dict m).isSome with
+              | true =>
+                have : l = [] := hsome (by rw [hslot0]; exact hs0)
+                subst this
+                simp only [List.length_nil, Nat.add_zero]
+                exact ⟨hold.1, fun _ => ho.keep (by rw [hslot0]; exact hs0)⟩
+              | false =>
+                have h0 : w.fcount o.oid m = 0 := by
+                  rcases Nat.lt_or_ge (w.fcount o.oid m) 1 with h | h
+                  · exact Nat.lt_one_iff.mp h
+                  · have := hold.2 (Nat.le_antisymm hold.1 h)
+                    rw [hs0] at this; cases this
+                rw [h0, Nat.zero_add]
+                refine ⟨hlen, fun h1 => hne ?_⟩
+                intro hnil; rw [hnil] at h1; cases h1
+            · simp only [hmn, and_false, if_false, Nat.add_zero]
+              exact g.once j o hi m
+          · have hne' : ¬ (oj.oid = o.oid ∧ m = n) := fun h => hji (g.distinct j i oj o hj' hi h.1)
+            simp only [hne', if_false, Nat.add_zero]
+            exact g.once j oj hj' m
+        · intro fc hfcm
+          show ∃ (j : Nat) (oj : Inst), (w.setInst i (o.absorb n td.core s) s.ctx).insts[j]? = some oj ∧ fc.2.1 = oj.oid
+          have hfcm' : fc ∈ w.ctx.fcalls ++ l := by
+            have : s.ctx.fcalls = w.ctx.fcalls ++ l := hl
+            rw [← this]; exact hfcm
+          rcases List.mem_append.mp hfcm' with h | h
+          · obtain ⟨j, oj, hj, he⟩ := g.foreign fc h
+            by_cases hji : j = i
+            · subst hji
+              rw [hi] at hj; injection hj with hj; subst hj
+              exact ⟨j, _, setInst_get_self w j o _ _ hi, he⟩
+            · exact ⟨j, oj, by rw [setInst_get_other w i j _ _ hji]; exact hj, he⟩
+          · exact ⟨i, _, setInst_get_self w i o _ _ hi, by rw [hm fc h]; rfl⟩
+        · intro t hc
+          rcases hc with ⟨k, hk, p, hp, rfl⟩ | ⟨oj, hoj, p, hp, rfl⟩
+          · exact g.total _ (Or.inl ⟨k, hk, p, hp, rfl⟩)
+          · obtain ⟨j, hj⟩ := List.getElem?_of_mem hoj
+            rcases hget j oj hj with ⟨rfl, rfl⟩ | ⟨-, hj'⟩
+            · unfold Inst.absorb at hp
+              simp only [] at hp
+              cases hit : s.it with
+              | none =>
+                simp only [hit] at hp
+                exact g.total _ (Or.inr ⟨o, List.mem_of_getElem? hi, p, hp, rfl⟩)
+              | some l2 =>
+                simp only [hit] at hp
+                rcases mem_assocSet _ _ _ _ hp with h | h
+                · exact g.total _ (Or.inr ⟨o, List.mem_of_getElem? hi, p, h, rfl⟩)
+                · subst h
+                  simp only []
+                  cases hcur : assocGet o.itraits n with
+                  | none => simpa [hcur] using g.total _ hcore
+                  | some t0 =>
+                    obtain ⟨q, hq, hq2⟩ := assocGet_mem _ _ _ hcur
+                    simp only [Option.map_some, Option.getD_some]
+                    exact g.total _ (Or.inr ⟨o, List.mem_of_getElem? hi, q, hq, by rw [hq2]⟩)
+            · exact g.total _ (Or.inr ⟨oj, List.mem_of_getElem? hj', p, hp, rfl⟩)
+
+/-- Replacing the record of instance `i` by one with the same identity and
+values, without touching the context. -/
+theorem setInst_once {E : Env} {w : World} (g : OnceInv E w) (i : Nat) (o o' : Inst) (hi : w.insts[i]? = some o)
+    (h1 : o'.oid = o.oid) (h2 : o'.dict = o.dict) (h3 : ∀ p ∈ o'.itraits, TotalDefault E p.2.core) :
+    OnceInv E (w.setInst i o' w.ctx) := by
+  have hget : ∀ (j : Nat) (oj : Inst), (w.setInst i o' w.ctx).insts[j]? = some oj →
+      (j = i ∧ oj = o') ∨ (j ≠ i ∧ w.insts[j]? = some oj) := by
+    intro j oj hj
+    by_cases hji : j = i
+    · subst hji
+      rw [setInst_get_self w j o _ _ hi] at hj
+      injection hj with hj
+      exact Or.inl ⟨rfl, hj.symm⟩
+    · rw [setInst_get_other w i j _ _ hji] at hj
+      exact Or.inr ⟨hji, hj⟩
+  have hold : ∀ (j : Nat) (oj : Inst), (w.setInst i o' w.ctx).insts[j]? = some oj →
+      ∃ oj0, w.insts[j]? = some oj0 ∧ oj.oid = oj0.oid ∧ oj.dict = oj0.dict := by
+    intro j oj hj
+    rcases hget j oj hj with ⟨rfl, rfl⟩ | ⟨-, h⟩
+    · exact ⟨o, hi, h1, h2⟩
+    · exact ⟨oj, h, rfl, rfl⟩
+  refine ⟨?_, ?_, ?_, ?_, ?_⟩
+  · intro j oj hj
+    obtain ⟨oj0, h0, e1, -⟩ := hold j oj hj
+    rw [e1]; exact g.lt j oj0 h0
+  · intro a b oa ob ha hb hab
+    obtain ⟨oa0, h0a, e1a, -⟩ := hold a oa ha
+    obtain ⟨ob0, h0b, e1b, -⟩ := hold b ob hb
+    exact g.distinct a b oa0 ob0 h0a h0b (by rw [← e1a, ← e1b]; exact hab)
+  · intro j oj hj n
+    obtain ⟨oj0, h0, e1, e2⟩ := hold j oj hj
+    rw [e1, e2]
+    exact g.once j oj0 h0 n
+  · intro fc hfc
+    obtain ⟨j, oj, hj, he⟩ := g.foreign fc hfc
+    by_cases hji : j = i
+    · subst hji
+      rw [hi] at hj; injection hj with hj; subst hj
+      exact ⟨j, o', setInst_get_self w j o _ _ hi, by rw [he, h1]⟩
+    · exact ⟨j, oj, by rw [setInst_get_other w i j _ _ hji]; exact hj, he⟩
+  · intro t hc
+    rcases hc with ⟨k, hk, p, hp, rfl⟩ | ⟨oj, hoj, p, hp, rfl⟩
+    · exact g.total _ (Or.inl ⟨k, hk, p, hp, rfl⟩)
+    · obtain ⟨j, hj⟩ := List.getElem?_of_mem hoj
+      rcases hget j oj hj with ⟨rfl, rfl⟩ | ⟨-, hj'⟩
+      · exact h3 p hp
+      · exact g.total _ (Or.inr ⟨oj, List.mem_of_getElem? hj', p, hp, rfl⟩)
+
+/-- Changing the heap only keeps the invariant. -/
+theorem ctx_once {E : Env} {w : World} (g : OnceInv E w) (c : Ctx) (h1 : c.fcalls = w.ctx.fcalls)
+    (h2 : c.alloc = w.ctx.alloc) : OnceInv E { w with ctx := c } :=
+  ⟨fun i o h => by show o.oid < c.alloc; rw [h2]; exact g.lt i o h, g.distinct,
+   fun i o h n => by
+     have : World.fcount { w with ctx := c } o.oid n = w.fcount o.oid n := by unfold World.fcount; simp only [h1]
+     rw [this]; exact g.once i o h n,
+   fun f hf => g.foreign f (by rw [← h1]; exact hf), g.total⟩
+
+/-- Side condition: traits added at run time have a total default. -/
+def OpTotal (E : Env) : WOp → Prop
+  | .addTrait _ _ t => TotalDefault E t
+  | _ => True
+
+theorem step_onceInv {E : Env} {w : World} (g : OnceInv E w) (op : WOp) (hop : OpTotal E op) :
+    OnceInv E (World.step E w op).2 := by
+  have hget : ∀ i n, OnceInv E (w.onAttr i n (fun t s => Attr.step E t s .get)).2 := fun i n =>
+    onAttr_once g i n _ (fun t s tot => ⟨step_once tot s .get (Or.inl rfl), step_sframe E t s .get⟩)
+  cases op with
+  | new k =>
+    simp only [World.step]
+    split
+    · have hgetn : ∀ (j : Nat) (o : Inst),
+          (w.insts ++ [({ oid := w.ctx.alloc, cls := k } : Inst)])[j]? = some o →
+          w.insts[j]? = some o ∨ (j = w.insts.length ∧ o = { oid := w.ctx.alloc, cls := k }) := by
+        intro j o ho
+        rcases Nat.lt_or_ge j w.insts.length with h | h
+        · rw [List.getElem?_append_left h] at ho; exact Or.inl ho
+        · rw [List.getElem?_append_right h] at ho
+          right
+          cases hj : j - w.insts.length with
+          | zero =>
+            rw [hj] at ho; simp at ho
+            exact ⟨by omega, ho.symm⟩
+          | succ m => rw [hj] at ho; simp at ho
+      have hzero : ∀ n, (w.ctx.fcalls.filter (fun f => f.2.1 == w.ctx.alloc && f.2.2 == n)).length = 0 := by
+        intro n
+        rw [filter_none_of]
+        · rfl
+        · intro f hf
+          obtain ⟨j, oj, hj, he⟩ := g.foreign f hf
+          have := g.lt j oj hj
+          simp only [Bool.and_eq_false_iff, beq_eq_false_iff_ne, ne_eq]
+          left
+          rw [he]
+          exact Nat.ne_of_lt this
+      refine ⟨?_, ?_, ?_, ?_, ?_⟩
+      · intro j o ho
+        show o.oid < w.ctx.alloc + 1
+        rcases hgetn j o ho with h | ⟨-, rfl⟩
+        · exact Nat.lt_succ_of_lt (g.lt j o h)
+        · exact Nat.lt_succ_self _
+      · intro a b oa ob ha hb hab
+        rcases hgetn a oa ha with h1 | ⟨h1, rfl⟩
+        · rcases hgetn b ob hb with h2 | ⟨h2, rfl⟩
+          · exact g.distinct a b oa ob h1 h2 hab
+          · exact absurd hab (Nat.ne_of_lt (g.lt a oa h1))
+        · rcases hgetn b ob hb with h2 | ⟨h2, rfl⟩
+          · exact absurd hab.symm (Nat.ne_of_lt (g.lt b ob h2))
+          · rw [h1, h2]
+      · intro j o ho n
+        show (w.ctx.fcalls.filter _).length ≤ 1 ∧ ((w.ctx.fcalls.filter _).length = 1 → _)
+        rcases hgetn j o ho with h | ⟨-, rfl⟩
+        · exact g.once j o h n
+        · simp only []
+          rw [hzero n]
+          exact ⟨Nat.zero_le _, fun h => by cases h⟩
+      · intro f hf
+        obtain ⟨j, oj, hj, he⟩ := g.foreign f hf
+        have hjl : j < w.insts.length := by
+          rcases Nat.lt_or_ge j w.insts.length with h | h
+          · exact h
+          · rw [List.getElem?_eq_none h] at hj; cases hj
+        exact ⟨j, oj, by show (w.insts ++ _)[j]? = some oj; rw [List.getElem?_append_left hjl]; exact hj, he⟩
+      · intro t hc
+        rcases hc with ⟨c, hc, p, hp, rfl⟩ | ⟨o, ho, p, hp, rfl⟩
+        · exact g.total _ (Or.inl ⟨c, hc, p, hp, rfl⟩)
+        · simp only [List.mem_append, List.mem_singleton] at ho
+          rcases ho with ho | ho
+          · exact g.total _ (Or.inr ⟨o, ho, p, hp, rfl⟩)
+          · subst ho; simp at hp
+    · exact g
+  | get i n => exact hget i n
+  | set i n v =>
+    exact onAttr_once g i n _ (fun t s tot =>
+      ⟨step_once tot s (.set v) (Or.inr (Or.inl ⟨v, rfl⟩)), step_sframe E t s (.set v)⟩)
+  | regDyn i n k =>
+    exact onAttr_once g i n _ (fun t s tot =>
+      ⟨step_once tot s (.regDyn k false) (Or.inr (Or.inr (Or.inl ⟨k, false, rfl⟩))), step_sframe E t s _⟩)
+  | regObs i n k =>
+    exact onAttr_once g i n _ (fun t s tot =>
+      ⟨step_once tot s (.regObs k) (Or.inr (Or.inr (Or.inr ⟨k, rfl⟩))), step_sframe E t s _⟩)
+  | regAny i k =>
+    simp only [World.step]
+    cases hi : w.insts[i]? with
+    | none => exact g
+    | some o =>
+      simp only []
+      exact setInst_once g i o { o with on := (({ on := o.on } : OSt).regAny k false).on } hi rfl rfl
+        (fun p hp => g.total _ (Or.inr ⟨o, List.mem_of_getElem? hi, p, hp, rfl⟩))
+  | addTrait i n t =>
+    simp only [World.step, World.addTrait]
+    cases hi : w.insts[i]? with
+    | none => exact g
+    | some o =>
+      simp only []
+      refine setInst_once g i o { o with itraits := assocSet o.itraits n { core := t, notifiers := match w.traitOf o n with
+            | some td => td.notifiers.map (fun l => l)
+            | none => none } } hi rfl rfl ?_
+      intro p hp
+      rcases mem_assocSet _ _ _ _ hp with h | h
+      · exact g.total _ (Or.inr ⟨o, List.mem_of_getElem? hi, p, h, rfl⟩)
+      · subst h; exact hop
+  | mutate i n x =>
+    have g1 := hget i n
+    simp only [World.step]
+    cases hr : w.onAttr i n (fun t s => Attr.step E t s .get) with
+    | mk r w1 =>
+      rw [hr] at g1
+      simp only []
+      cases hv : r.val with
+      | none => exact g1
+      | some cid =>
+        simp only []
+        have hm := mutate_frame w1.ctx cid x
+        have := ctx_once g1 (w1.ctx.mutate cid x).2 hm.2.2.1 hm.1
+        cases hmu : w1.ctx.mutate cid x with
+        | mk e c =>
+          rw [hmu] at this
+          cases e <;> exact this
+  | mutateInner i n x =>
+    have g1 := hget i n
+    simp only [World.step]
+    cases hr : w.onAttr i n (fun t s => Attr.step E t s .get) with
+    | mk r w1 =>
+      rw [hr] at g1
+      simp only []
+      cases hv : r.val with
+      | none => exact g1
+      | some cid =>
+        simp only []
+        cases hin : (heapGet w1.ctx.heap cid).bind (·.head?) with
+        | none => exact g1
+        | some inner =>
+          simp only []
+          have hm := mutate_frame w1.ctx inner x
+          have := ctx_once g1 (w1.ctx.mutate inner x).2 hm.2.2.1 hm.1
+          cases hmu : w1.ctx.mutate inner x with
+          | mk e c =>
+            rw [hmu] at this
+            cases e <;> exact this
+
+theorem run_onceInv {E : Env} : ∀ (h : List WOp) (w : World), OnceInv E w → (∀ op ∈ h, OpTotal E op) →
+    OnceInv E (World.run E w h)
+  | [], _, g, _ => g
+  | op :: h, w, g, H => by
+    rw [World.run]
+    exact run_onceInv h _ (step_onceInv g op (H op List.mem_cons_self))
+      (fun o ho => H o (List.mem_cons_of_mem _ ho))
+
 end TraitsVerif.Model.Attr
